@@ -83,6 +83,7 @@ structure Sess where
   minerShares : Nat := 0
   workerWork : Nat := 0
   ambiguous : Bool := false          -- the outcome depended on map iteration order
+  negMask   : String := ""           -- the version mask the miner negotiated through its first pool ("" = none)
 
 inductive Reply where | ok | jobNotFound | lowDiff | duplicate
 deriving Repr, DecidableEq
@@ -316,7 +317,7 @@ def acquire (s : Sess) (pool : String) (p : PoolCfg) (user : String) : Sess Ã— D
       lastRead := s.now, lastWrite := s.now }
     let hs : List Out :=
       [Out.factory pool (some conn)] ++
-      (if s.vr then [Out.toPool pool conn s!"configure id=1 mask=1fffe000 minbits=2 contract={user}"] else []) ++
+      (if s.vr then [Out.toPool pool conn s!"configure id=1 mask={s.negMask} minbits=2 contract={user}"] else []) ++
       [Out.toPool pool conn "subscribe id=2",
        Out.toPool pool conn s!"authorize id=3 user={user} pwd=pwd{pool}"]
     (setPool s { p with conns := conn, jobN := p.jobN + 1 }, d, hs)
@@ -351,6 +352,14 @@ def switchWith (s : Sess) (pool : String) (cb : Option Nat) (cbN : Nat) : Sess Ã
       -- the installed callback stays)
       ({ s with cbN := cbN }, [Out.factory pool none, Out.session "setdest-ret connect-dest"])
     | some p =>
+      -- a pool that grants another version mask than the one the miner negotiated is refused (`connectNewDest`:
+      -- "pool returned different version rolling mask"): the new connection is closed, the miner stays where it is
+      if (findDest s (pool, user)).isNone âˆ§ s.vr âˆ§ p.mask â‰  s.negMask then
+        let conn := p.conns + 1
+        ({ setPool s { p with conns := conn } with cbN := cbN },
+         [Out.factory pool (some conn), Out.toPool pool conn s!"configure id=1 mask={s.negMask} minbits=2 contract={user}",
+          Out.toPool pool conn "closed", Out.session "setdest-ret connect-dest"])
+      else
       let a := acquire s pool p user
       match resend a.2.1 with
       | none => ({ a.1 with cbN := cbN }, a.2.2 ++ [Out.session "setdest-ret change-dest"])
